@@ -408,6 +408,19 @@ theorem inv_trace {C : Crypto} {cfg : Cfg} : ∀ (ops : List Op) {s : State}, In
     simp only [trace]
     exact inv_trace os (inv_step o h)
 
+theorem count_le_one_of_nodup {l : List Duty} (h : l.Nodup) (d : Duty) : l.count d ≤ 1 := by
+  induction l with
+  | nil => simp
+  | cons x xs ih =>
+    simp only [List.nodup_cons] at h
+    rw [List.count_cons]
+    by_cases hx : x = d
+    · subst hx
+      have : xs.count x = 0 := List.count_eq_zero.mpr h.1
+      simp [this]
+    · have := ih h.2
+      simp [hx]; omega
+
 theorem startedIn_append (a b : List Out) (d : Duty) : startedIn (a ++ b) d = startedIn a d + startedIn b d := by
   simp [startedIn, List.filter_append]
 
@@ -451,5 +464,255 @@ theorem step_proposed_persists {C : Crypto} {cfg : Cfg} {s : State} {op : Op} {d
     unfold findIO
     rw [hi, find_filter_other s.ios (fun h => hne h.symm)]
     exact hio
+
+/-! ### deliveries to subscribers -/
+
+/-- number of calls of subscriber `i` for duty `d`. -/
+def subsIn (outs : List Out) (i : Nat) (d : Duty) : Nat :=
+  (outs.filter (fun o => match o with | .subCall i' d' _ => decide (i' = i) && decide (d' = d) | _ => false)).length
+
+/-- how many more deliveries duty `d` can still get: none once its (only) run has called `Decide`. -/
+def credit (s : State) (d : Duty) : Nat :=
+  match s.runs.find? (fun r => r.duty = d) with
+  | none => 1
+  | some r => if r.decideCalled then 0 else 1
+
+theorem subsIn_append (a b : List Out) (i : Nat) (d : Duty) : subsIn (a ++ b) i d = subsIn a i d + subsIn b i d := by
+  simp [subsIn, List.filter_append]
+
+theorem subsIn_subCalls (n : Nat) (d : Duty) (x : Inner) (i : Nat) (d' : Duty) :
+    subsIn (subCalls n d x) i d' = if d' = d ∧ i < n then 1 else 0 := by
+  induction n with
+  | zero => simp [subCalls, subsIn]
+  | succ n ih =>
+    have : subCalls (n + 1) d x = subCalls n d x ++ [.subCall n d x] := by
+      simp [subCalls, List.range_succ]
+    rw [this, subsIn_append, ih]
+    by_cases hd : d' = d
+    · subst hd
+      by_cases hi : i = n
+      · subst hi; simp [subsIn]
+      · have : ¬ n = i := fun h => hi h.symm
+        by_cases hlt : i < n
+        · simp [subsIn, this, hlt]; omega
+        · simp [subsIn, this, hlt]; omega
+    · have : ¬ d = d' := fun h => hd h.symm
+      simp [subsIn, hd, this]
+
+inductive StepDeliver (s s' : State) (outs : List Out) (op : Op) : Prop where
+  | quiet (g : RunSt → RunSt) (hg : ∀ r, (g r).duty = r.duty ∧ (g r).decideCalled = r.decideCalled)
+      (hr : s'.runs = s.runs.map g) (ho : ∀ i d, subsIn outs i d = 0)
+  | start (new : RunSt) (hn : new.decideCalled = false) (hr : s'.runs = s.runs ++ [new])
+      (ho : ∀ i d, subsIn outs i d = 0)
+  | decide (d : Duty) (r : RunSt) (hop : ∃ h vals, op = .decide d h vals) (hl : liveRun s d = some r)
+      (hc : r.decideCalled = false)
+      (g : RunSt → RunSt) (hg : ∀ r, (g r).duty = r.duty ∧ (g r).decideCalled = true)
+      (hr : s'.runs = setRun s.runs d g) (ho : ∀ i d', subsIn outs i d' ≤ if d' = d then 1 else 0)
+
+theorem quiet_id {s s' : State} {outs : List Out} {op : Op} (hr : s'.runs = s.runs) (ho : ∀ i d, subsIn outs i d = 0) :
+    StepDeliver s s' outs op :=
+  .quiet id (fun _ => ⟨rfl, rfl⟩) (by simpa using hr) ho
+
+theorem quiet_setRun {s s' : State} {outs : List Out} {op : Op} (d : Duty) (f : RunSt → RunSt)
+    (hf : ∀ r, (f r).duty = r.duty ∧ (f r).decideCalled = r.decideCalled)
+    (hr : s'.runs = setRun s.runs d f) (ho : ∀ i d, subsIn outs i d = 0) : StepDeliver s s' outs op :=
+  .quiet (fun r => if r.duty = d && r.live then f r else r)
+    (fun r => by split; exact hf r; exact ⟨rfl, rfl⟩) hr ho
+
+theorem runInstance_deliver (s : State) (io : IOSt) (who : Caller) (dl : Status) (op : Op) :
+    StepDeliver s (runInstance s io who dl).1 (runInstance s io who dl).2 op := by
+  rcases runInstance_cases s io who dl with ⟨_, h⟩ | ⟨_, h⟩
+  · rw [h]; exact .start _ rfl rfl (fun i d => by simp [subsIn])
+  · rw [h]; exact quiet_id rfl (fun i d => by simp [subsIn])
+
+theorem step_deliver (C : Crypto) (cfg : Cfg) (s : State) (op : Op) :
+    StepDeliver s (step C cfg s op).1 (step C cfg s op).2 op := by
+  cases op with
+  | propose d p dl =>
+    simp only [step]
+    split
+    · exact quiet_id rfl (fun i d => by simp [subsIn])
+    · split
+      · exact quiet_id rfl (fun i d => by simp [subsIn])
+      · split
+        · exact quiet_id rfl (fun i d => by simp [subsIn])
+        · split
+          · split
+            · exact quiet_id rfl (fun i d => by simp [subsIn])
+            · refine quiet_setRun d _ ?_ rfl (fun i d => by simp [subsIn])
+              exact fun r => ⟨rfl, rfl⟩
+          · exact runInstance_deliver s _ _ dl _
+  | participate d dl =>
+    simp only [step]
+    split
+    · exact quiet_id rfl (fun i d => by simp [subsIn])
+    · split
+      · exact quiet_id rfl (fun i d => by simp [subsIn])
+      · split
+        · exact quiet_id rfl (fun i d => by simp [subsIn])
+        · exact runInstance_deliver s _ _ dl _
+  | message d =>
+    simp only [step]
+    split <;> exact quiet_id rfl (fun i d => by simp [subsIn])
+  | decide d h vals =>
+    simp only [step]
+    split
+    · exact quiet_id rfl (fun i d => by simp [subsIn])
+    · rename_i r hr
+      split
+      · exact quiet_id rfl (fun i d => by simp [subsIn])
+      · rename_i hdc
+        have hdc' : r.decideCalled = false := by simpa using hdc
+        split
+        · (refine .decide d r ⟨h, vals, rfl⟩ hr hdc' _ ?_ rfl (fun i d' => by simp [subsIn]); exact fun r => ⟨rfl, rfl⟩)
+        · split
+          · (refine .decide d r ⟨h, vals, rfl⟩ hr hdc' _ ?_ rfl (fun i d' => by simp [subsIn]); exact fun r => ⟨rfl, rfl⟩)
+          · refine .decide d r ⟨h, vals, rfl⟩ hr hdc' _ ?_ rfl ?_
+            · exact fun r => ⟨rfl, rfl⟩
+            intro i d'
+            rw [subsIn_subCalls]
+            by_cases hd : d' = d
+            · simp [hd]; split <;> omega
+            · simp [hd]
+  | ends d =>
+    simp only [step]
+    split
+    · exact quiet_id rfl (fun i d => by simp [subsIn])
+    · rename_i r hr
+      have ho : ∀ i d', subsIn ([Out.ret r.starter d (if r.decided = true then Ret.ok else Ret.timeout)] ++
+          if r.waiter = true then [Out.ret Caller.propose d (if r.decided = true then Ret.ok else Ret.timeout)] else []) i d' = 0 := by
+        intro i d'
+        cases r.waiter <;> simp [subsIn]
+      split
+      · split
+        · (refine quiet_setRun d _ ?_ rfl ho; exact fun r => ⟨rfl, rfl⟩)
+        · (refine quiet_setRun d _ ?_ rfl ho; exact fun r => ⟨rfl, rfl⟩)
+      · (refine quiet_setRun d _ ?_ rfl ho; exact fun r => ⟨rfl, rfl⟩)
+  | expire d =>
+    simp only [step]
+    exact .quiet (fun r => if r.duty = d then { r with attached := false } else r)
+      (fun r => by split <;> exact ⟨rfl, rfl⟩) rfl (fun i d => by simp [subsIn])
+
+theorem find_map_duty (runs : List RunSt) (g : RunSt → RunSt) (hg : ∀ r, (g r).duty = r.duty) (d : Duty) :
+    (runs.map g).find? (fun r => r.duty = d) = (runs.find? (fun r => r.duty = d)).map g := by
+  induction runs with
+  | nil => rfl
+  | cons x xs ih =>
+    simp only [List.map_cons, List.find?_cons, hg x]
+    split
+    · rfl
+    · exact ih
+
+theorem find_duty_unique {runs : List RunSt} {d : Duty} {r0 r : RunSt}
+    (hn : (runs.map (·.duty)).Nodup) (h0 : runs.find? (fun r => r.duty = d) = some r0)
+    (hr : r ∈ runs) (hd : r.duty = d) : r = r0 := by
+  induction runs with
+  | nil => cases hr
+  | cons x xs ih =>
+    simp only [List.map_cons, List.nodup_cons] at hn
+    rw [List.find?_cons] at h0
+    by_cases hx : x.duty = d
+    · simp [hx] at h0
+      subst h0
+      cases hr with
+      | head => rfl
+      | tail _ hr' =>
+        exfalso
+        apply hn.1
+        rw [hx, ← hd]
+        exact List.mem_map.mpr ⟨r, hr', rfl⟩
+    · simp [hx] at h0
+      cases hr with
+      | head => exact absurd hd hx
+      | tail _ hr' => exact ih hn.2 h0 hr'
+
+theorem subsIn_pos_of_mem {outs : List Out} {i : Nat} {d : Duty} {x : Inner}
+    (h : Out.subCall i d x ∈ outs) : 0 < subsIn outs i d := by
+  unfold subsIn
+  apply List.length_pos_of_mem (a := Out.subCall i d x)
+  exact List.mem_filter.mpr ⟨h, by simp⟩
+
+theorem credit_le_one (s : State) (d : Duty) : credit s d ≤ 1 := by
+  unfold credit
+  split
+  · omega
+  · split <;> omega
+
+theorem step_credit {C : Crypto} {cfg : Cfg} {s : State} (op : Op) (hi : Inv s) (i : Nat) (d : Duty) :
+    subsIn (step C cfg s op).2 i d + credit (step C cfg s op).1 d ≤ credit s d := by
+  cases step_deliver C cfg s op with
+  | quiet g hg hr ho =>
+    rw [ho i d]
+    have : credit (step C cfg s op).1 d = credit s d := by
+      unfold credit
+      rw [hr, find_map_duty _ g (fun r => (hg r).1)]
+      cases s.runs.find? (fun r => r.duty = d) with
+      | none => rfl
+      | some r => simp [(hg r).2]
+    omega
+  | start new hn hr ho =>
+    rw [ho i d]
+    unfold credit
+    rw [hr, List.find?_append]
+    cases hf : s.runs.find? (fun r => r.duty = d) with
+    | none =>
+      simp only [Option.none_or]
+      have := credit_le_one { runs := [new] } d
+      unfold credit at this
+      simpa using this
+    | some r => simp
+  | decide d0 r _ hl hc g hg hr ho =>
+    have hmem : r ∈ s.runs := List.mem_of_find?_eq_some hl
+    have hprop : r.duty = d0 ∧ r.live = true := by
+      have := List.find?_some hl
+      simpa using this
+    let g' : RunSt → RunSt := fun r => if r.duty = d0 && r.live then g r else r
+    have hg' : ∀ r, (g' r).duty = r.duty := by
+      intro r; simp only [g']; split; exact (hg r).1; rfl
+    have hruns : (step C cfg s op).1.runs = s.runs.map g' := hr
+    by_cases hd : d = d0
+    · subst hd
+      have hf : ∃ r0, s.runs.find? (fun r => r.duty = d) = some r0 := by
+        cases hf : s.runs.find? (fun r => r.duty = d) with
+        | some r0 => exact ⟨r0, rfl⟩
+        | none =>
+          have := List.find?_eq_none.mp hf r hmem
+          simp [hprop.1] at this
+      obtain ⟨r0, hr0⟩ := hf
+      have heq : r = r0 := find_duty_unique hi.nodup hr0 hmem hprop.1
+      subst heq
+      have h1 : credit s d = 1 := by unfold credit; rw [hr0]; simp [hc]
+      have h2 : credit (step C cfg s op).1 d = 0 := by
+        unfold credit
+        rw [hruns, find_map_duty _ g' hg', hr0]
+        simp [g', hprop.1, hprop.2, (hg r).2]
+      have := ho i d
+      simp at this
+      omega
+    · have h0 := ho i d
+      simp [hd] at h0
+      have : credit (step C cfg s op).1 d = credit s d := by
+        unfold credit
+        rw [hruns, find_map_duty _ g' hg']
+        cases hf : s.runs.find? (fun r => r.duty = d) with
+        | none => rfl
+        | some r1 =>
+          have hd1 : r1.duty = d := by simpa using List.find?_some hf
+          have : g' r1 = r1 := by
+            simp only [g']
+            have : ¬ r1.duty = d0 := by rw [hd1]; exact hd
+            simp [this]
+          simp [this]
+      omega
+
+theorem trace_credit {C : Crypto} {cfg : Cfg} (i : Nat) (d : Duty) : ∀ (ops : List Op) (s : State), Inv s →
+    subsIn (trace C cfg s ops).2 i d + credit (trace C cfg s ops).1 d ≤ credit s d
+  | [], s, _ => by simp [trace, subsIn]
+  | o :: os, s, hi => by
+    simp only [trace]
+    rw [subsIn_append]
+    have h1 := step_credit (C := C) (cfg := cfg) o hi i d
+    have h2 := trace_credit (C := C) (cfg := cfg) i d os (step C cfg s o).1 (inv_step o hi)
+    omega
 
 end CharonV.ConsWrap
